@@ -52,8 +52,15 @@ def TextCut (F : Fmt) : Prop :=
 theorem CutEol_of_TextCut (F : Fmt) (hT : TextCut F) : CutEol F :=
   fun _ buf cut a pre post h hb => hT.2 buf cut a pre 10 post h hb (Or.inl rfl)
 
+/-- both text-only hypotheses are vacuous for a binary format -/
+theorem ReadShortB_of_binary (F : Fmt) (h : F.isText = false) : ReadShortB F :=
+  fun h' => by rw [h] at h'; cases h'
+
+theorem CutEol_of_binary (F : Fmt) (h : F.isText = false) : CutEol F :=
+  fun h' => by rw [h] at h'; cases h'
+
 /-- carry-over followed by everything the remaining `Read` calls deliver -/
-def tail (F : Fmt) (s : Base) : Bytes := s.overflow ++ pending F s
+def ahead (F : Fmt) (s : Base) : Bytes := s.overflow ++ pending F s
 
 /-! ### kernels -/
 
@@ -75,6 +82,9 @@ theorem loadGrow_spec (dw : Nat) (h2 : dw ≤ 2^60) : loadGrow dw = 2 * dw := by
 
 theorem loadResize_spec (bw : Nat) (h : bw < 2^60) : loadResize bw = bw + 1 := by
   unfold loadResize u64; omega
+
+theorem loadFuel_spec (s : Base) :
+    loadFuel s = s.overflow.length + (s.offEnd - s.offCurr) + s.files.length + 4 := rfl
 
 theorem pending_overflow (F : Fmt) (s : Base) (ov : Bytes) :
     pending F { s with overflow := ov } = pending F s := rfl
@@ -172,7 +182,8 @@ theorem readChunk_spec (F : Fmt) (hR : ReadSpecB F) (hC : CutOk F) (s s' : Base)
     refine ⟨by simp, Or.inl (by simp), Or.inr (Or.inr ⟨rfl, rfl⟩)⟩
   · obtain ⟨hinv1, hpend, hlen, hemp, hf, hob, hoe, hch, hov, hbw⟩ :=
       hR _ _ _ _ hrd ((RInv_overflow s []).2 hinv) ht (by omega)
-    rw [pending_overflow] at hpend hemp
+    have hpend : bytes ++ pending F s1 = pending F s := hpend
+    have hemp : bytes = [] → maxSize - s.overflow.length = 0 ∨ pending F s = [] := hemp
     have hf : s1.files = s.files := hf
     have hob : s1.offBegin = s.offBegin := hob
     have hoe : s1.offEnd = s.offEnd := hoe
@@ -216,5 +227,544 @@ theorem readChunk_spec (F : Fmt) (hR : ReadSpecB F) (hC : CutOk F) (s s' : Base)
         refine ⟨?_, Or.inl ?_, Or.inl ⟨buf, cut, hcut, rfl, rfl, by rw [hbuf]; exact hne⟩⟩
         · rw [List.length_take, hbuf, List.length_append]; omega
         · rw [hbuf, ← hpend]; simp
+
+/-- a round of `Chunk::Load` that returns size 0 keeps `ahead`; it is either the early return (state
+unchanged) or the whole buffer became the carry-over after a non-empty `Read`, and then the buffer was
+full or (text, short `Read`) the part is all but used up -/
+theorem readChunk_zero_cases (F : Fmt) (hR : ReadSpecB F) (hS : ReadShortB F) (hE : CutEol F) (s s' : Base)
+    (maxSize : Nat) (h : readChunk F s maxSize = .ok (some [], s')) (hinv : RInv s)
+    (ht : totalSize s.files < 2^62) (hm : maxSize < 2^62) :
+    ahead F s' = ahead F s ∧
+    ((s' = s ∧ maxSize ≤ s.overflow.length) ∨
+     (s.overflow.length < maxSize ∧ s'.overflow.length ≤ maxSize ∧
+      (pending F s').length < (pending F s).length ∧
+      (maxSize ≤ s'.overflow.length ∨ (pending F s').length ≤ 2))) := by
+  rcases readChunk_cases F s s' maxSize _ h (by omega) with ⟨hsm, _, rfl⟩ | ⟨hlt, bytes, s1, hrd, hcase⟩
+  · exact ⟨rfl, Or.inl ⟨rfl, hsm⟩⟩
+  · obtain ⟨hinv1, hpend, hlen, hemp, -, -, -, -, hov, -⟩ :=
+      hR _ _ _ _ hrd ((RInv_overflow s []).2 hinv) ht (by omega)
+    have hpend : bytes ++ pending F s1 = pending F s := hpend
+    have hemp : bytes = [] → maxSize - s.overflow.length = 0 ∨ pending F s = [] := hemp
+    have hov : s1.overflow = [] := hov
+    rcases hcase with ⟨_, _, hr, _⟩ | ⟨hne, _, _, hr, _⟩ | ⟨hne, hfull, buf, cut, hbuf, hcut, hr, rfl⟩
+    · cases hr
+    · injection hr with hr; exact absurd hr.symm hne
+    · injection hr with hr
+      have hbne : buf ≠ [] := by
+        rw [hbuf]; split
+        · simp
+        · exact hne
+      have hc0 : cut = 0 := by
+        cases buf with
+        | nil => exact absurd rfl hbne
+        | cons a l => cases cut with
+          | zero => rfl
+          | succ n => simp at hr
+      subst hc0
+      by_cases hcond : F.isText = true ∧ bytes = []
+      · exfalso
+        rw [if_pos hcond] at hbuf
+        obtain ⟨htx, hb⟩ := hcond
+        rw [hb, List.append_nil] at hbuf hne
+        cases hov' : s.overflow with
+        | nil => exact hne hov'
+        | cons a o =>
+          rw [hov'] at hbuf
+          exact absurd (hE htx buf 0 a o [] hcut hbuf) (by omega)
+      · rw [if_neg hcond] at hbuf
+        have htail : ahead F { s1 with overflow := buf.drop 0 } = ahead F s := by
+          show buf.drop 0 ++ pending F s1 = s.overflow ++ pending F s
+          rw [hbuf, ← hpend]; simp
+        have hovl : (buf.drop 0).length ≤ maxSize := by
+          rw [List.drop_zero, hbuf, List.length_append]; omega
+        have key : bytes ≠ [] ∧ (maxSize ≤ (buf.drop 0).length ∨ (pending F s1).length ≤ 2) := by
+          by_cases hshort : bytes.length < maxSize - s.overflow.length
+          · have htx : F.isText = true := by
+              cases htx : F.isText with
+              | true => rfl
+              | false =>
+                have := hfull htx
+                rw [List.length_append] at this; omega
+            have hbn : bytes ≠ [] := fun e => hcond ⟨htx, e⟩
+            have hno : ∀ b ∈ bytes.drop 1, b ≠ 10 := by
+              intro b hb hb10
+              subst hb10
+              cases bytes with
+              | nil => exact hbn rfl
+              | cons x rest =>
+                simp only [List.drop_succ_cons, List.drop_zero] at hb
+                obtain ⟨p, q, rfl⟩ := List.append_of_mem hb
+                cases hov' : s.overflow with
+                | nil =>
+                  rw [hov'] at hbuf
+                  exact absurd (hE htx buf 0 x p q hcut (by rw [hbuf]; simp)) (by omega)
+                | cons a o =>
+                  rw [hov'] at hbuf
+                  exact absurd (hE htx buf 0 a (o ++ x :: p) q hcut (by rw [hbuf]; simp)) (by omega)
+            exact ⟨hbn, Or.inr (hS htx _ _ _ _ hrd ((RInv_overflow s []).2 hinv) ht (by omega) hshort hno)⟩
+          · refine ⟨?_, Or.inl ?_⟩
+            · intro e; rw [e] at hshort; simp at hshort; omega
+            · rw [List.drop_zero, hbuf, List.length_append]; omega
+        refine ⟨htail, Or.inr ⟨hlt, hovl, ?_, key.2⟩⟩
+        show (pending F s1).length < (pending F s).length
+        rw [← hpend, List.length_append]
+        have : 0 < bytes.length := List.length_pos_iff.2 key.1
+        omega
+
+/-- coarser form: the doubling is justified by the data, or at most two bytes are left pending -/
+theorem readChunk_zero (F : Fmt) (hR : ReadSpecB F) (hS : ReadShortB F) (hE : CutEol F) (s s' : Base)
+    (maxSize : Nat) (h : readChunk F s maxSize = .ok (some [], s')) (hinv : RInv s)
+    (ht : totalSize s.files < 2^62) (hm : maxSize < 2^62) :
+    ahead F s' = ahead F s ∧
+    (maxSize ≤ (ahead F s).length ∨
+     ((pending F s').length ≤ 2 ∧ (pending F s').length < (pending F s).length)) := by
+  obtain ⟨htl, hc⟩ := readChunk_zero_cases F hR hS hE s s' maxSize h hinv ht hm
+  refine ⟨htl, ?_⟩
+  rcases hc with ⟨rfl, hsm⟩ | ⟨_, _, hlt, hfull | h2⟩
+  · left; unfold ahead; rw [List.length_append]; omega
+  · left; rw [← htl]; unfold ahead; rw [List.length_append]; omega
+  · right; exact ⟨h2, hlt⟩
+
+/-- text: `ReadChunk` raises no error -/
+theorem readChunk_total (F : Fmt) (hF : F.isText = true) (hRT : ReadTotalB F) (hT : TextCut F) (s : Base)
+    (maxSize : Nat) (hinv : RInv s) (ht : totalSize s.files < 2^62) (hm : maxSize < 2^62) :
+    ∃ r, readChunk F s maxSize = .ok r := by
+  unfold readChunk
+  rw [rcTooSmall_spec]
+  by_cases hsmall : maxSize ≤ s.overflow.length
+  · simp only [hsmall, decide_true, if_true]; exact ⟨_, rfl⟩
+  · simp only [hsmall, decide_false, Bool.false_eq_true, if_false]
+    rw [rcReadSize_spec _ _ (by omega) (by omega)]
+    obtain ⟨⟨bytes, s1⟩, hrd⟩ := hRT { s with overflow := [] } (maxSize - s.overflow.length)
+      ((RInv_overflow s []).2 hinv) ht (by omega)
+    simp only [hrd]
+    by_cases hz : (s.overflow ++ bytes).length = 0
+    · simp only [hz, if_true]; exact ⟨_, rfl⟩
+    · have hne : s.overflow ++ bytes ≠ [] := fun e => hz (by rw [e]; rfl)
+      simp only [hz, if_false, hF, Bool.true_eq_false, false_and, true_and]
+      split
+      · rename_i e heq
+        exfalso
+        obtain ⟨cut, hcut⟩ := hT.1 _ (by split <;> simp [hne] :
+          (if rcNoNewData (s.overflow ++ bytes).length s.overflow.length = true
+            then s.overflow ++ bytes ++ [UInt8.ofNat rcNewline] else s.overflow ++ bytes) ≠ [])
+        rw [hcut] at heq; cases heq
+      · exact ⟨_, rfl⟩
+
+/-! ### unfolding `loadLoop` and `load`
+
+`unfold loadLoop` / `simp [loadLoop]` / `rfl` are unusable: generating the equation lemmas (and any kernel
+conversion check that has a `match` on `readChunk F s (loadSize dw)` on one side only) evaluates the
+discriminant, i.e. `(dw + 2^64 - 1) % 2^64` with a free `dw`, successor by successor.  The unfoldings are
+therefore obtained from generic copies whose offending pieces are variables; their instances are
+syntactically the model's terms, so the kernel never has to evaluate anything. -/
+
+/-- `loadLoop` with `readChunk F`, `loadSize`, `loadGrow` abstracted -/
+def loopGen (rc : Base → Nat → Except Err (Option Bytes × Base)) (sz grow : Nat → Nat) :
+    Nat → Base → Nat → Except Err (Option Bytes × Base × Nat)
+  | 0, _, _ => .error .fuel
+  | fuel + 1, s, dataWords =>
+    loadLoop.match_1 (fun _ => Except Err (Option Bytes × Base × Nat)) (rc s (sz dataWords))
+      (fun e => .error e) (fun s => .ok (none, s, dataWords))
+      (fun s => loopGen rc sz grow fuel s (grow dataWords)) (fun c s => .ok (some c, s, dataWords))
+
+/-- one visit of the loop body of `Chunk::Load`, as a function of the `ReadChunk` result -/
+def loadStep (d : Except Err (Option Bytes × Base)) (k : Base → Except Err (Option Bytes × Base × Nat))
+    (dw : Nat) : Except Err (Option Bytes × Base × Nat) :=
+  match d with
+  | .error e => .error e
+  | .ok (none, s) => .ok (none, s, dw)
+  | .ok (some [], s) => k s
+  | .ok (some c, s) => .ok (some c, s, dw)
+
+theorem loopGen_succ (rc : Base → Nat → Except Err (Option Bytes × Base)) (sz grow : Nat → Nat)
+    (fuel : Nat) (s : Base) (dw : Nat) :
+    loopGen rc sz grow (fuel + 1) s dw =
+      loadStep (rc s (sz dw)) (fun s1 => loopGen rc sz grow fuel s1 (grow dw)) dw := by
+  rw [loopGen]; rfl
+
+/-- `load` with `loadLoop F`, `loadFuel`, `loadResize` abstracted -/
+def loadGen (L : Nat → Base → Nat → Except Err (Option Bytes × Base × Nat)) (fu : Base → Nat)
+    (rs : Nat → Nat) (s : Base) (c : Chunk) : Except Err (Bool × Base × Chunk) :=
+  load.match_1 (fun _ => Except Err (Bool × Base × Chunk)) (L (fu s) s (rs s.bufWords))
+    (fun e => .error e)
+    (fun s dw => .ok (false, s, { dataWords := dw, begin := c.begin, rest := c.rest }))
+    (fun bytes s dw => .ok (true, s, { dataWords := dw, rest := bytes }))
+
+/-- what `Chunk::Load` makes of the result of its loop -/
+def loadFin (d : Except Err (Option Bytes × Base × Nat)) (c : Chunk) : Except Err (Bool × Base × Chunk) :=
+  match d with
+  | .error e => .error e
+  | .ok (none, s, dw) => .ok (false, s, { c with dataWords := dw })
+  | .ok (some bytes, s, dw) => .ok (true, s, { dataWords := dw, begin := 0, rest := bytes })
+
+theorem loadGen_eq (L : Nat → Base → Nat → Except Err (Option Bytes × Base × Nat)) (fu : Base → Nat)
+    (rs : Nat → Nat) (s : Base) (c : Chunk) :
+    loadGen L fu rs s c = loadFin (L (fu s) s (rs s.bufWords)) c := rfl
+
+attribute [local irreducible] readChunk loadSize loadGrow loadFuel loadResize
+
+theorem loadLoop_eq_gen (F : Fmt) : loadLoop F = loopGen (readChunk F) loadSize loadGrow := by
+  delta loadLoop loopGen
+  rfl
+
+theorem loadLoop_zero (F : Fmt) (s : Base) (dw : Nat) : loadLoop F 0 s dw = .error .fuel := rfl
+
+theorem loadLoop_succ (F : Fmt) (fuel : Nat) (s : Base) (dw : Nat) :
+    loadLoop F (fuel + 1) s dw =
+      loadStep (readChunk F s (loadSize dw)) (fun s1 => loadLoop F fuel s1 (loadGrow dw)) dw := by
+  rw [loadLoop_eq_gen]
+  exact loopGen_succ (readChunk F) loadSize loadGrow fuel s dw
+
+theorem load_eq_gen (F : Fmt) : load F = loadGen (loadLoop F) loadFuel loadResize := by
+  delta load loadGen
+  rfl
+
+theorem load_unfold (F : Fmt) (s : Base) (c : Chunk) :
+    load F s c = loadFin (loadLoop F (loadFuel s) s (loadResize s.bufWords)) c := by
+  rw [load_eq_gen]
+  exact loadGen_eq (loadLoop F) loadFuel loadResize s c
+
+/-! ### the doubling loop of `Chunk::Load` -/
+
+/-- size invariant of the doubling loop: `dw` is at most `K` (a bound on the initial size and on half the
+data still there), except that up to three more doublings may happen once at most `P ≤ 2` bytes are
+pending (text: short `Read`s near the end of the part) -/
+def DwOk (K P dw : Nat) : Prop :=
+  1 ≤ dw ∧ (dw ≤ K ∨ (P ≤ 2 ∧ dw ≤ 2 * K) ∨ (P ≤ 1 ∧ dw ≤ 4 * K) ∨ (P = 0 ∧ dw ≤ 8 * K))
+
+theorem DwOk_of_le (K P dw : Nat) (h1 : 1 ≤ dw) (h2 : dw ≤ K) : DwOk K P dw := ⟨h1, Or.inl h2⟩
+
+theorem loadLoop_spec_aux (F : Fmt) (hR : ReadSpecB F) (hC : CutOk F) (hS : ReadShortB F) (hE : CutEol F)
+    (K : Nat) (hK : K ≤ 2^57) :
+    ∀ (fuel : Nat) (s s' : Base) (dw dw' : Nat) (r : Option Bytes),
+    loadLoop F fuel s dw = .ok (r, s', dw') → RInv s → totalSize s.files < 2^62 →
+    (ahead F s).length + 4 ≤ 2 * K → DwOk K (pending F s).length dw →
+    RInv s' ∧ s'.files = s.files ∧ s'.offBegin = s.offBegin ∧ s'.offEnd = s.offEnd ∧ s'.chunk = s.chunk ∧
+    s'.bufWords = s.bufWords ∧ 1 ≤ dw' ∧ dw' ≤ 8 * K ∧
+    match r with
+    | none => ahead F s = [] ∧ s'.overflow = [] ∧ pending F s' = []
+    | some c =>
+      c ≠ [] ∧ c.length ≤ 4 * (dw' - 1) ∧
+      ((c ++ s'.overflow ++ pending F s' = ahead F s) ∨
+       (F.isText = true ∧ pending F s' = [] ∧ ahead F s ≠ [] ∧ c ++ s'.overflow = ahead F s ++ [10])) ∧
+      ((∃ buf cut, F.findLastRecordBegin buf = .ok cut ∧ c = buf.take cut ∧ s'.overflow = buf.drop cut ∧ buf ≠ []) ∨
+       (F.isText = false ∧ s'.overflow = [] ∧ c ≠ [])) := by
+  intro fuel
+  induction fuel with
+  | zero => intro s s' dw dw' r h; rw [loadLoop_zero] at h; cases h
+  | succ fuel ih =>
+    intro s s' dw dw' r h hinv ht hT hdw
+    have hdw8 : 1 ≤ dw ∧ dw ≤ 8 * K := by unfold DwOk at hdw; omega
+    have hls : loadSize dw = 4 * (dw - 1) := loadSize_spec dw hdw8.1 (by omega)
+    rw [loadLoop_succ] at h
+    cases hrc : readChunk F s (loadSize dw) with
+    | error e => rw [hrc] at h; simp only [loadStep] at h; cases h
+    | ok res =>
+      obtain ⟨ro, s1⟩ := res
+      have hsp := readChunk_spec F hR hC s s1 (loadSize dw) ro hrc hinv ht (by omega)
+      obtain ⟨hinv1, hf, hob, hoe, hch, hbw, hm⟩ := hsp
+      cases ro with
+      | none =>
+        rw [hrc] at h; simp only [loadStep] at h
+        cases h
+        obtain ⟨h1, h2, h3, h4⟩ := hm
+        refine ⟨hinv1, hf, hob, hoe, hch, hbw, hdw8.1, hdw8.2, ?_, h3, h4⟩
+        unfold ahead; rw [h1, h2]; rfl
+      | some c =>
+        cases c with
+        | nil =>
+          rw [hrc] at h; simp only [loadStep] at h
+          obtain ⟨htl, hj⟩ := readChunk_zero F hR hS hE s s1 (loadSize dw) hrc hinv ht (by omega)
+          have hg : loadGrow dw = 2 * dw := loadGrow_spec dw (by omega)
+          rw [hg] at h
+          have hdw2 : DwOk K (pending F s1).length (2 * dw) := by
+            unfold DwOk at hdw ⊢
+            rw [hls] at hj
+            omega
+          obtain ⟨i1, i2, i3, i4, i5, i6, i7, i8, i9⟩ :=
+            ih s1 s' (2 * dw) dw' r h hinv1 (by rw [hf]; exact ht) (by rw [htl]; exact hT) hdw2
+          refine ⟨i1, i2.trans hf, i3.trans hob, i4.trans hoe, i5.trans hch, i6.trans hbw, i7, i8, ?_⟩
+          rw [htl] at i9
+          exact i9
+        | cons a l =>
+          rw [hrc] at h; simp only [loadStep] at h
+          cases h
+          obtain ⟨hlen, hcons, hprov⟩ := hm
+          refine ⟨hinv1, hf, hob, hoe, hch, hbw, hdw8.1, hdw8.2, by simp, by rw [hls] at hlen; exact hlen, ?_, ?_⟩
+          · rcases hcons with hc | ⟨htx, hp, hp1, hne, hc⟩
+            · exact Or.inl hc
+            · right
+              unfold ahead
+              rw [hp, List.append_nil]
+              exact ⟨htx, hp1, hne, hc⟩
+          · rcases hprov with hp | hp | ⟨hp, _⟩
+            · exact Or.inl hp
+            · exact Or.inr hp
+            · cases hp
+
+/-- the doubling loop of `Chunk::Load`, entered with a buffer of `1 ≤ dw ≤ K` words where `2 * K` bounds
+the bytes still to come (+ 4): conservation relative to the state at entry -/
+theorem loadLoop_spec (F : Fmt) (hR : ReadSpecB F) (hC : CutOk F) (hS : ReadShortB F) (hE : CutEol F)
+    (K : Nat) (hK : K ≤ 2^57) (fuel : Nat) (s s' : Base) (dw dw' : Nat) (r : Option Bytes)
+    (h : loadLoop F fuel s dw = .ok (r, s', dw')) (hinv : RInv s) (ht : totalSize s.files < 2^62)
+    (hT : (ahead F s).length + 4 ≤ 2 * K) (hdw1 : 1 ≤ dw) (hdwK : dw ≤ K) :
+    RInv s' ∧ s'.files = s.files ∧ s'.offBegin = s.offBegin ∧ s'.offEnd = s.offEnd ∧ s'.chunk = s.chunk ∧
+    s'.bufWords = s.bufWords ∧ 1 ≤ dw' ∧ dw' ≤ 8 * K ∧
+    match r with
+    | none => ahead F s = [] ∧ s'.overflow = [] ∧ pending F s' = []
+    | some c =>
+      c ≠ [] ∧ c.length ≤ 4 * (dw' - 1) ∧
+      ((c ++ s'.overflow ++ pending F s' = ahead F s) ∨
+       (F.isText = true ∧ pending F s' = [] ∧ ahead F s ≠ [] ∧ c ++ s'.overflow = ahead F s ++ [10])) ∧
+      ((∃ buf cut, F.findLastRecordBegin buf = .ok cut ∧ c = buf.take cut ∧ s'.overflow = buf.drop cut ∧ buf ≠ []) ∨
+       (F.isText = false ∧ s'.overflow = [] ∧ c ≠ [])) :=
+  loadLoop_spec_aux F hR hC hS hE K hK fuel s s' dw dw' r h hinv ht hT (DwOk_of_le K _ dw hdw1 hdwK)
+
+/-! ### `Chunk::Load` -/
+
+theorem load_spec (F : Fmt) (hR : ReadSpecB F) (hC : CutOk F) (hS : ReadShortB F) (hE : CutEol F)
+    (s s' : Base) (c0 c' : Chunk) (ok : Bool) (h : load F s c0 = .ok (ok, s', c')) (hinv : RInv s)
+    (ht : totalSize s.files < 2^62) (hbuf : s.bufWords < 2^56) (hT : (ahead F s).length < 2^56) :
+    RInv s' ∧ s'.files = s.files ∧ s'.offBegin = s.offBegin ∧ s'.offEnd = s.offEnd ∧ s'.chunk = s.chunk ∧
+    s'.bufWords = s.bufWords ∧ 1 ≤ c'.dataWords ∧ c'.dataWords ≤ 2^59 ∧
+    (ok = false → c'.rest = c0.rest ∧ c'.begin = c0.begin ∧ ahead F s = [] ∧ s'.overflow = [] ∧ pending F s' = []) ∧
+    (ok = true →
+      c'.begin = 0 ∧ c'.rest ≠ [] ∧ c'.begin + c'.rest.length < 4 * c'.dataWords ∧
+      ((c'.rest ++ s'.overflow ++ pending F s' = ahead F s) ∨
+       (F.isText = true ∧ pending F s' = [] ∧ ahead F s ≠ [] ∧ c'.rest ++ s'.overflow = ahead F s ++ [10])) ∧
+      ((∃ buf cut, F.findLastRecordBegin buf = .ok cut ∧ c'.rest = buf.take cut ∧ s'.overflow = buf.drop cut ∧ buf ≠ []) ∨
+       (F.isText = false ∧ s'.overflow = [] ∧ c'.rest ≠ []))) := by
+  rw [load_unfold, loadResize_spec _ (by omega)] at h
+  cases hL : loadLoop F (loadFuel s) s (s.bufWords + 1) with
+  | error e => rw [hL] at h; simp only [loadFin] at h; cases h
+  | ok res =>
+    obtain ⟨r, s1, dw1⟩ := res
+    rw [hL] at h
+    obtain ⟨i1, i2, i3, i4, i5, i6, i7, i8, i9⟩ :=
+      loadLoop_spec F hR hC hS hE (2^56) (by omega) _ s s1 _ dw1 r hL hinv ht (by omega) (by omega) (by omega)
+    cases r with
+    | none =>
+      simp only [loadFin] at h
+      cases h
+      refine ⟨i1, i2, i3, i4, i5, i6, i7, (by show dw1 ≤ 2^59; omega), fun _ => ⟨rfl, rfl, i9⟩, fun hk => by cases hk⟩
+    | some c =>
+      simp only [loadFin] at h
+      cases h
+      obtain ⟨j1, j2, j3, j4⟩ := i9
+      refine ⟨i1, i2, i3, i4, i5, i6, i7, (by show dw1 ≤ 2^59; omega), (fun hk => by cases hk), fun _ => ⟨rfl, j1, ?_, j3, j4⟩⟩
+      show 0 + c.length < 4 * dw1
+      omega
+
+/-! ### totality of the doubling loop for the text format (`C03_load_terminates`) -/
+
+/-- measure: bytes still pending, plus how far the buffer is from exceeding the carry-over.  Every round
+that returns size 0 decreases it: the early return doubles the buffer, the other case moves at least one
+pending byte into the carry-over (which then fits the doubled buffer). -/
+theorem loadLoop_total_aux (F : Fmt) (hF : F.isText = true) (hR : ReadSpecB F) (hRT : ReadTotalB F)
+    (hC : CutOk F) (hS : ReadShortB F) (hT : TextCut F) (K : Nat) (hK : K ≤ 2^57) :
+    ∀ (fuel : Nat) (s : Base) (dw : Nat), RInv s → totalSize s.files < 2^62 →
+    (ahead F s).length + 4 ≤ 2 * K → DwOk K (pending F s).length dw →
+    (pending F s).length + ((s.overflow.length + 1) - 4 * (dw - 1)) + 1 ≤ fuel →
+    ∃ r, loadLoop F fuel s dw = .ok r := by
+  intro fuel
+  induction fuel with
+  | zero => intro s dw _ _ _ _ hf; omega
+  | succ fuel ih =>
+    intro s dw hinv ht hTl hdw hfuel
+    have hdw8 : 1 ≤ dw ∧ dw ≤ 8 * K := by unfold DwOk at hdw; omega
+    have hls : loadSize dw = 4 * (dw - 1) := loadSize_spec dw hdw8.1 (by omega)
+    rw [loadLoop_succ]
+    obtain ⟨⟨ro, s1⟩, hrc⟩ := readChunk_total F hF hRT hT s (loadSize dw) hinv ht (by omega)
+    rw [hrc]
+    cases ro with
+    | none => simp only [loadStep]; exact ⟨_, rfl⟩
+    | some c =>
+      cases c with
+      | cons a l => simp only [loadStep]; exact ⟨_, rfl⟩
+      | nil =>
+        simp only [loadStep]
+        obtain ⟨hinv1, hf, -⟩ := readChunk_spec F hR hC s s1 (loadSize dw) _ hrc hinv ht (by omega)
+        obtain ⟨htl, hcs⟩ :=
+          readChunk_zero_cases F hR hS (CutEol_of_TextCut F hT) s s1 (loadSize dw) hrc hinv ht (by omega)
+        rw [loadGrow_spec dw (by omega)]
+        rw [hls] at hcs
+        have hlen : (ahead F s).length = s.overflow.length + (pending F s).length := by
+          unfold ahead; rw [List.length_append]
+        have hlen1 : (ahead F s1).length = s1.overflow.length + (pending F s1).length := by
+          unfold ahead; rw [List.length_append]
+        rw [htl] at hlen1
+        apply ih s1 (2 * dw) hinv1 (by rw [hf]; exact ht) (by rw [htl]; exact hTl)
+        · unfold DwOk at hdw ⊢
+          rcases hcs with ⟨rfl, hsm⟩ | ⟨h1, h2, h3, h4⟩
+          · omega
+          · omega
+        · rcases hcs with ⟨rfl, hsm⟩ | ⟨h1, h2, h3, h4⟩
+          · omega
+          · omega
+
+/-- text: the doubling loop of `Chunk::Load` ends without error (in particular before its iteration
+bound) when entered with `1 ≤ dw ≤ K` and `carry-over + pending + 2 ≤ fuel` -/
+theorem loadLoop_total (F : Fmt) (hF : F.isText = true) (hR : ReadSpecB F) (hRT : ReadTotalB F)
+    (hC : CutOk F) (hS : ReadShortB F) (hT : TextCut F) (K : Nat) (hK : K ≤ 2^57) (s : Base) (dw : Nat)
+    (hinv : RInv s) (ht : totalSize s.files < 2^62) (hTl : (ahead F s).length + 4 ≤ 2 * K)
+    (hdw1 : 1 ≤ dw) (hdwK : dw ≤ K) (fuel : Nat)
+    (hfuel : s.overflow.length + (pending F s).length + 2 ≤ fuel) :
+    ∃ r, loadLoop F fuel s dw = .ok r :=
+  loadLoop_total_aux F hF hR hRT hC hS hT K hK fuel s dw hinv ht hTl (DwOk_of_le K _ dw hdw1 hdwK)
+    (by omega)
+
+/-- text: `Chunk::Load` ends without error; `hP` bounds the pending stream by the real bytes left in the
+part plus one injected `'\n'` per file -/
+theorem load_total (F : Fmt) (hF : F.isText = true) (hR : ReadSpecB F) (hRT : ReadTotalB F)
+    (hC : CutOk F) (hS : ReadShortB F) (hT : TextCut F) (s : Base) (c0 : Chunk) (hinv : RInv s)
+    (ht : totalSize s.files < 2^62) (hbuf : s.bufWords < 2^56) (hTl : (ahead F s).length < 2^56)
+    (hP : (pending F s).length ≤ (s.offEnd - s.offCurr) + s.files.length) :
+    ∃ r, load F s c0 = .ok r := by
+  rw [load_unfold, loadResize_spec _ (by omega)]
+  obtain ⟨⟨r, s1, dw1⟩, hL⟩ :=
+    loadLoop_total F hF hR hRT hC hS hT (2^56) (by omega) s (s.bufWords + 1) hinv ht (by omega) (by omega)
+      (by omega) (loadFuel s) (by rw [loadFuel_spec]; omega)
+  rw [hL]
+  cases r with
+  | none => simp only [loadFin]; exact ⟨_, rfl⟩
+  | some c => simp only [loadFin]; exact ⟨_, rfl⟩
+
+/-! ### binary formats: a short `Read` ends the part, the buffer is a prefix of the look-ahead (for C04) -/
+
+/-- binary only: a `Read` that returns fewer bytes than requested has used up the part
+(follows from `read_short_binary` of ReadLemmas.lean) -/
+def ReadShortBin (F : Fmt) : Prop :=
+  ∀ (s : Base) (size : Nat) (bytes : Bytes) (s' : Base), read F s size = .ok (bytes, s') → RInv s →
+    totalSize s.files < 2^62 → size < 2^62 → F.isText = false → bytes.length < size → pending F s' = []
+
+/-- provenance of a chunk in binary mode (complements `readChunk_spec`): a cut of a FULL buffer that is a
+prefix of the look-ahead, or the whole rest of the stream after a short read, or the early return -/
+theorem readChunk_spec_bin (F : Fmt) (hB : F.isText = false) (hR : ReadSpecB F) (hSB : ReadShortBin F)
+    (s s' : Base) (maxSize : Nat) (r : Option Bytes) (h : readChunk F s maxSize = .ok (r, s'))
+    (hinv : RInv s) (ht : totalSize s.files < 2^62) (hm : maxSize < 2^62) :
+    match r with
+    | none => True
+    | some c =>
+      (∃ buf cut, F.findLastRecordBegin buf = .ok cut ∧ c = buf.take cut ∧ s'.overflow = buf.drop cut ∧
+          buf ≠ [] ∧ buf ++ pending F s' = ahead F s ∧ buf.length = maxSize) ∨
+      (s'.overflow = [] ∧ c ≠ [] ∧ pending F s' = [] ∧ c = ahead F s ∧ c.length < maxSize) ∨
+      (c = [] ∧ s' = s ∧ maxSize ≤ s.overflow.length) := by
+  rcases readChunk_cases F s s' maxSize r h (by omega) with ⟨hsm, rfl, rfl⟩ | ⟨hlt, bytes, s1, hrd, hcase⟩
+  · exact Or.inr (Or.inr ⟨rfl, rfl, hsm⟩)
+  · obtain ⟨hinv1, hpend, hlen, hemp, -, -, -, -, hov, -⟩ :=
+      hR _ _ _ _ hrd ((RInv_overflow s []).2 hinv) ht (by omega)
+    have hpend : bytes ++ pending F s1 = pending F s := hpend
+    have hov : s1.overflow = [] := hov
+    rcases hcase with ⟨_, _, rfl, _⟩ | ⟨hne, _, hsh, rfl, rfl⟩ | ⟨hne, hfull, buf, cut, hbuf, hcut, rfl, rfl⟩
+    · trivial
+    · have hshort : bytes.length < maxSize - s.overflow.length := by
+        rw [List.length_append] at hsh; omega
+      have hp1 : pending F s' = [] :=
+        hSB _ _ _ _ hrd ((RInv_overflow s []).2 hinv) ht (by omega) hB hshort
+      refine Or.inr (Or.inl ⟨hov, hne, hp1, ?_, ?_⟩)
+      · unfold ahead; rw [← hpend, hp1, List.append_nil]
+      · rw [List.length_append] at hsh ⊢; omega
+    · have hcond : ¬ (F.isText = true ∧ bytes = []) := by rw [hB]; simp
+      rw [if_neg hcond] at hbuf
+      refine Or.inl ⟨buf, cut, hcut, rfl, rfl, by rw [hbuf]; exact hne, ?_, by rw [hbuf]; exact hfull hB⟩
+      show buf ++ pending F s1 = s.overflow ++ pending F s
+      rw [hbuf, ← hpend, List.append_assoc]
+
+theorem loadLoop_spec_bin_aux (F : Fmt) (hB : F.isText = false) (hR : ReadSpecB F) (hC : CutOk F)
+    (hSB : ReadShortBin F) (K : Nat) (hK : K ≤ 2^57) :
+    ∀ (fuel : Nat) (s s' : Base) (dw dw' : Nat) (r : Option Bytes),
+    loadLoop F fuel s dw = .ok (r, s', dw') → RInv s → totalSize s.files < 2^62 →
+    (ahead F s).length + 4 ≤ 2 * K → DwOk K (pending F s).length dw →
+    match r with
+    | none => True
+    | some c =>
+      (∃ buf cut, F.findLastRecordBegin buf = .ok cut ∧ c = buf.take cut ∧ s'.overflow = buf.drop cut ∧
+          buf ≠ [] ∧ buf ++ pending F s' = ahead F s ∧ buf.length = 4 * (dw' - 1)) ∨
+      (s'.overflow = [] ∧ c ≠ [] ∧ pending F s' = [] ∧ c = ahead F s ∧ c.length < 4 * (dw' - 1)) := by
+  have hS := ReadShortB_of_binary F hB
+  have hE := CutEol_of_binary F hB
+  intro fuel
+  induction fuel with
+  | zero => intro s s' dw dw' r h; rw [loadLoop_zero] at h; cases h
+  | succ fuel ih =>
+    intro s s' dw dw' r h hinv ht hT hdw
+    have hdw8 : 1 ≤ dw ∧ dw ≤ 8 * K := by unfold DwOk at hdw; omega
+    have hls : loadSize dw = 4 * (dw - 1) := loadSize_spec dw hdw8.1 (by omega)
+    rw [loadLoop_succ] at h
+    cases hrc : readChunk F s (loadSize dw) with
+    | error e => rw [hrc] at h; simp only [loadStep] at h; cases h
+    | ok res =>
+      obtain ⟨ro, s1⟩ := res
+      obtain ⟨hinv1, hf, -⟩ := readChunk_spec F hR hC s s1 (loadSize dw) ro hrc hinv ht (by omega)
+      cases ro with
+      | none =>
+        rw [hrc] at h; simp only [loadStep] at h
+        cases h
+        trivial
+      | some c =>
+        cases c with
+        | nil =>
+          rw [hrc] at h; simp only [loadStep] at h
+          obtain ⟨htl, hj⟩ := readChunk_zero F hR hS hE s s1 (loadSize dw) hrc hinv ht (by omega)
+          rw [loadGrow_spec dw (by omega)] at h
+          have hdw2 : DwOk K (pending F s1).length (2 * dw) := by
+            unfold DwOk at hdw ⊢
+            rw [hls] at hj
+            omega
+          have i9 := ih s1 s' (2 * dw) dw' r h hinv1 (by rw [hf]; exact ht) (by rw [htl]; exact hT) hdw2
+          rw [htl] at i9
+          exact i9
+        | cons a l =>
+          have hbin := readChunk_spec_bin F hB hR hSB s s1 (loadSize dw) _ hrc hinv ht (by omega)
+          rw [hrc] at h; simp only [loadStep] at h
+          cases h
+          rw [hls] at hbin
+          rcases hbin with hp | hp | ⟨hp, _⟩
+          · exact Or.inl hp
+          · exact Or.inr hp
+          · cases hp
+
+/-- binary: provenance of the chunk of the doubling loop (complements `loadLoop_spec`, same hypotheses) -/
+theorem loadLoop_spec_bin (F : Fmt) (hB : F.isText = false) (hR : ReadSpecB F) (hC : CutOk F)
+    (hSB : ReadShortBin F) (K : Nat) (hK : K ≤ 2^57) (fuel : Nat) (s s' : Base) (dw dw' : Nat)
+    (r : Option Bytes) (h : loadLoop F fuel s dw = .ok (r, s', dw')) (hinv : RInv s)
+    (ht : totalSize s.files < 2^62) (hT : (ahead F s).length + 4 ≤ 2 * K) (hdw1 : 1 ≤ dw) (hdwK : dw ≤ K) :
+    match r with
+    | none => True
+    | some c =>
+      (∃ buf cut, F.findLastRecordBegin buf = .ok cut ∧ c = buf.take cut ∧ s'.overflow = buf.drop cut ∧
+          buf ≠ [] ∧ buf ++ pending F s' = ahead F s ∧ buf.length = 4 * (dw' - 1)) ∨
+      (s'.overflow = [] ∧ c ≠ [] ∧ pending F s' = [] ∧ c = ahead F s ∧ c.length < 4 * (dw' - 1)) :=
+  loadLoop_spec_bin_aux F hB hR hC hSB K hK fuel s s' dw dw' r h hinv ht hT (DwOk_of_le K _ dw hdw1 hdwK)
+
+/-- binary: provenance of the chunk of `Chunk::Load` (complements `load_spec`, same hypotheses) -/
+theorem load_spec_bin (F : Fmt) (hB : F.isText = false) (hR : ReadSpecB F) (hC : CutOk F)
+    (hSB : ReadShortBin F) (s s' : Base) (c0 c' : Chunk) (ok : Bool)
+    (h : load F s c0 = .ok (ok, s', c')) (hinv : RInv s) (ht : totalSize s.files < 2^62)
+    (hbuf : s.bufWords < 2^56) (hT : (ahead F s).length < 2^56) :
+    ok = true →
+      (∃ buf cut, F.findLastRecordBegin buf = .ok cut ∧ c'.rest = buf.take cut ∧ s'.overflow = buf.drop cut ∧
+          buf ≠ [] ∧ buf ++ pending F s' = ahead F s ∧ buf.length = 4 * (c'.dataWords - 1)) ∨
+      (s'.overflow = [] ∧ c'.rest ≠ [] ∧ pending F s' = [] ∧ c'.rest = ahead F s ∧
+          c'.rest.length < 4 * (c'.dataWords - 1)) := by
+  rw [load_unfold, loadResize_spec _ (by omega)] at h
+  cases hL : loadLoop F (loadFuel s) s (s.bufWords + 1) with
+  | error e => rw [hL] at h; simp only [loadFin] at h; cases h
+  | ok res =>
+    obtain ⟨r, s1, dw1⟩ := res
+    rw [hL] at h
+    have i9 := loadLoop_spec_bin F hB hR hC hSB (2^56) (by omega) _ s s1 _ dw1 r hL hinv ht (by omega)
+      (by omega) (by omega)
+    cases r with
+    | none =>
+      simp only [loadFin] at h
+      cases h
+      intro hk; cases hk
+    | some c =>
+      simp only [loadFin] at h
+      cases h
+      intro _
+      exact i9
 
 end DmlcModel.Split
